@@ -200,7 +200,7 @@ func newSession(e modelEntry, r *rand.Rand) *session {
 }
 
 // genVersion is the current version of the sequence generator; a replay input carries the version it was drawn with.
-const genVersion = 6
+const genVersion = 7
 
 func timeAfter3s() <-chan time.Time { return time.After(3 * time.Second) }
 
